@@ -5,7 +5,14 @@
    inserts the SET of truthy values of each column into that column's sketch ([card]; warm phase only,
    [None] = converted, no C13 claim), every cell into the bounded counter ([counter], [hist]), every
    (column, value) cell into the rare-value machine ([rare]; sweep at the end of the batch), and
-   records the coverage percentage ([cov_batch]).  [hash] (internal_hash) is an arbitrary function. *)
+   records the coverage percentage ([cov_batch]).  [hash] (v |-> internal_hash(str(v))) is an arbitrary function.
+   Cells ([val]): a Python str [V s], or what pandas stores for a cell the parser left as None (ob-vw:
+   absent namespace): [NaN] when the batch's column also holds strings, [PyNone] when the whole column of
+   the batch is None ([frame_batch]).  As in the code: nan/None are never missing-value symbols and the
+   coverage denominator is the row count; the sketch takes truthy values ('' and None are skipped, nan is
+   hashed as 'nan'); counter and rare-value machine treat nan and None as two further keys.  All theorems
+   below hold for arbitrary frame contents; split independence of PARSED rows needs None-free histories
+   (C13_split_indep_parsed) and fails with None cells (C13_none_cells_refuted). *)
 From Coq Require Import List ZArith QArith Permutation.
 From Outrank Require Import Stats.Quality Stats.QualityProofs.
 Import ListNotations.
@@ -14,7 +21,7 @@ Local Open Scope Z_scope.
 (* cardinality, stored counts / repetition histogram and the rare-value report are functions of the
    concatenation of the batches: any two splits of the same rows agree (the report as a set of
    ((column, value), count) entries: dict order is not part of the observable) *)
-Theorem C13_split_indep : forall (hash : str -> N) cap edges bound thr ncols (s1 s2 : list batch),
+Theorem C13_split_indep : forall (hash : val -> N) cap edges bound thr ncols (s1 s2 : list batch),
   0 <= cap -> concat s1 = concat s2 ->
   (forall j, card hash cap j s1 = card hash cap j s2) /\
   (forall j, counter bound j s1 = counter bound j s2 /\ hist edges bound j s1 = hist edges bound j s2) /\
@@ -23,7 +30,7 @@ Theorem C13_split_indep : forall (hash : str -> N) cap edges bound thr ncols (s1
 Proof. exact split_indep. Qed.
 
 (* ... in particular for every composition of the row count *)
-Theorem C13_compositions : forall (hash : str -> N) cap edges bound thr ncols (rows : list row) sz1 sz2,
+Theorem C13_compositions : forall (hash : val -> N) cap edges bound thr ncols (rows : list row) sz1 sz2,
   0 <= cap -> list_sum sz1 = length rows -> list_sum sz2 = length rows ->
   (forall j, card hash cap j (cut sz1 rows) = card hash cap j (cut sz2 rows)) /\
   (forall j, hist edges bound j (cut sz1 rows) = hist edges bound j (cut sz2 rows)) /\
@@ -33,37 +40,37 @@ Proof. exact compositions_agree. Qed.
 (* whatever each batch feeds the sketch — its set of values in any order, or the values with
    repetitions — the reported cardinality is [card_spec] of the whole column: the number of distinct
    hashes of its non-empty cells, as long as that is at most the warm-up capacity *)
-Theorem C13_card_any_insertion : forall (hash : str -> N) cap (inss : list (list N)) (cols : list (list str)),
+Theorem C13_card_any_insertion : forall (hash : val -> N) cap (inss : list (list N)) (cols : list (list val)),
   0 <= cap ->
-  Forall2 (fun ins col => forall h, In h ins <-> In h (map hash (filter nonempty col))) inss cols ->
+  Forall2 (fun ins col => forall h, In h ins <-> In h (map hash (filter truthy col))) inss cols ->
   sk_len (sk_run cap inss) = card_spec hash cap (concat cols).
 Proof. exact card_any_order. Qed.
 
-Theorem C13_card_function_of_rows : forall (hash : str -> N) cap j (bs : list batch), 0 <= cap ->
+Theorem C13_card_function_of_rows : forall (hash : val -> N) cap j (bs : list batch), 0 <= cap ->
   card hash cap j bs = card_spec hash cap (column j (concat bs)).
 Proof. exact card_is_spec. Qed.
 
 (* hash injective on the non-empty values that occur, at most [cap] of them: the annotation is the
    exact number of distinct non-empty values (the empty string is the only value left out; other
    missing-value markers count as values, as in the code) *)
-Theorem C13_card_exact : forall (hash : str -> N) cap j (bs : list batch), 0 <= cap ->
+Theorem C13_card_exact : forall (hash : val -> N) cap j (bs : list batch), 0 <= cap ->
   let col := column j (concat bs) in
-  (forall u v, In u col -> In v col -> u <> [] -> v <> [] -> hash u = hash v -> u = v) ->
-  Z.of_nat (distinct_nonempty col) <= cap ->
-  card hash cap j bs = Some (distinct_nonempty col).
+  (forall u v, In u col -> In v col -> truthy u = true -> truthy v = true -> hash u = hash v -> u = v) ->
+  Z.of_nat (distinct_truthy col) <= cap ->
+  card hash cap j bs = Some (distinct_truthy col).
 Proof. exact card_exact. Qed.
 
 (* fewer distinct values (empty string included) than the bound: every stored count is exact and
    bucket x of the histogram is #{v | count v > x}, for any list of bucket edges *)
 Theorem C13_counter_exact : forall bound j (bs : list batch) v,
   let col := column j (concat bs) in
-  Z.of_nat (length (nodup str_eq_dec col)) < bound ->
-  get str_eq_dec (counter bound j bs) v = cnt str_eq_dec col v.
+  Z.of_nat (length (nodup val_eq_dec col)) < bound ->
+  get val_eq_dec (counter bound j bs) v = cnt val_eq_dec col v.
 Proof. exact counter_exact. Qed.
 
 Theorem C13_hist_spec : forall edges bound j (bs : list batch),
   let col := column j (concat bs) in
-  Z.of_nat (length (nodup str_eq_dec col)) < bound ->
+  Z.of_nat (length (nodup val_eq_dec col)) < bound ->
   hist edges bound j bs = hist_spec edges col.
 Proof. exact hist_is_spec. Qed.
 
@@ -111,6 +118,32 @@ Theorem C13_symbols_split : forall c s,
   join c (split_on c s) = s /\ Forall (fun p => ~ In c p) (split_on c s).
 Proof. exact split_on_spec. Qed.
 
+(* parsed rows (cells = option str).  Without None cells the frame of a batch is the table of the cells'
+   strings, so the statistics of a history of parsed batches depend on the concatenation only *)
+Theorem C13_frame_none_free : forall b : list rrow, none_free b = true -> frame_batch b = lift b.
+Proof. exact frame_none_free. Qed.
+
+Theorem C13_split_indep_parsed : forall (hash : val -> N) cap edges bound thr ncols (s1 s2 : list (list rrow)),
+  0 <= cap -> Forall (fun b => none_free b = true) s1 -> Forall (fun b => none_free b = true) s2 ->
+  concat s1 = concat s2 ->
+  (forall j, card hash cap j (frames s1) = card hash cap j (frames s2)) /\
+  (forall j, counter bound j (frames s1) = counter bound j (frames s2) /\
+             hist edges bound j (frames s1) = hist edges bound j (frames s2)) /\
+  Permutation (rare thr ncols (frames s1)) (rare thr ncols (frames s2)) /\
+  (forall k, get key_eq_dec (rare thr ncols (frames s1)) k = get key_eq_dec (rare thr ncols (frames s2)) k).
+Proof. exact raw_split_indep. Qed.
+
+(* with None cells the faithful model is NOT split independent (rows None, a, None in one batch, as
+   singletons, cut 1 | 2): cardinality 2 / 1, histogram [2;1] / [3;0], different rare tables *)
+Theorem C13_none_cells_refuted :
+  exists (hash : val -> N) (s1 s2 s3 : list (list rrow)),
+    concat s1 = concat s2 /\ concat s1 = concat s3 /\
+    card hash 262144 0 (frames s1) = Some 2%nat /\ card hash 262144 0 (frames s2) = Some 1%nat /\
+    hist [0; 1] 30000 0 (frames s1) = [2; 1] /\ hist [0; 1] 30000 0 (frames s3) = [3; 0] /\
+    rare 1 1 (frames s1) = [((0%nat, V [97%N]), 1)] /\
+    rare 1 1 (frames s3) = [((0%nat, PyNone), 1); ((0%nat, V [97%N]), 1); ((0%nat, NaN), 1)].
+Proof. exact none_cells_refuted. Qed.
+
 (* before fix 549e068 split independence and the report specification fail *)
 Theorem C13_prefix_refuted :
   exists (thr : Z) (s1 s2 : list batch) (k : key),
@@ -137,3 +170,6 @@ Print Assumptions C13_coverage_annotation.
 Print Assumptions C13_mean_nonneg.
 Print Assumptions C13_symbols_split.
 Print Assumptions C13_prefix_refuted.
+Print Assumptions C13_frame_none_free.
+Print Assumptions C13_split_indep_parsed.
+Print Assumptions C13_none_cells_refuted.
